@@ -8,16 +8,31 @@ from oracles import determinism_o as D
 from props._util import rng_for
 
 LEVEL = "other"
-DEDUCTIVE = []
+DEDUCTIVE = [{"module": "rnapolis.common", "sidecar": "contracts.common_all_c", "targets": ["BpSeq.all_dot_brackets"]}]
 TRUSTED = ["CPython 3.12 (str hash randomisation is the only seed-dependent source modelled; PYTHONHASHSEED 0,1,2,3,random)", "sha256",
-           "third parties are observed, not trusted: CBC via pulp (solver), orjson, csv, pandas to_csv, mmcif IoAdapterPy writer"]
+           "third parties are observed, not trusted: CBC via pulp (solver), orjson, csv, pandas to_csv, mmcif IoAdapterPy writer",
+           "deductive clause: z3 5.1.0 / cvc5 1.0.3, pyvc encoding of Python semantics; sorted(<set>, key=lambda d: d.structure): documented "
+           "contract 'a permutation of the members, non-decreasing in the key' (contracts.common_all_c._sorted_keyed); the other externals "
+           "and callee contracts of BpSeq.all_dot_brackets are those listed in props/C16.py"]
 ASSUMPTIONS = [
     "A-observe: byte-identity is observed on a finite set of inputs, 5 fresh interpreters each (hash seeds 0,1,2,3,random) and 2 calls per interpreter; it is not proved for other seeds, inputs, machines or thread schedules",
     "A-error: an output that consistently is the same exception text counts as deterministic (what it should be is another property's business)",
     "A-options: options exercised are model=None, find_gaps False/True, all_dot_brackets=True; the command line tool is run in-process with -a -b -c -j -p --stems-csv --inter-stem-csv",
+    "A-text-order (deductive clause): the order of two structure texts is the uninterpreted relation text_le(x, y) over DotBracket objects, standing "
+    "for x.structure <= y.structure (the spec language has no order on lists of characters); nothing else is assumed about it",
 ]
-EXPLANATION = ("bounded only: the property quantifies over interpreter states (hash seeds, fresh processes), which the VC generator does not model. tools/c14_worker.py "
-               "computes every named output in fresh interpreters; oracles/determinism_o.py compares their sha256 across seeds and across two in-process calls")
+EXPLANATION = ("One obligation family is deductive: BpSeq.all_dot_brackets (contracts.common_all_c, the contract of C16) has the clause "
+               "`ensures.ordered-by-structure-text`: for all q < r, text_le(result[q], result[r]) - the returned list is in ascending order of its "
+               "members' structure texts.  What it decides: the ORDER of the list of all dot-brackets is a function of the members' texts (the "
+               "documented contract of sorted by that key), not of set iteration order, hash seeds or object addresses; in the engine a set -> list "
+               "conversion (list(s), iteration) is an arbitrary enumeration, so `return list(solutions)` (the defect repaired by commit d44bda7), "
+               "a sort by another key (d.sequence, id(d)) or no sort cannot establish the clause.  The clause pins ONE direction (ascending, what "
+               "sorted(..) without reverse yields and what consumers / the bounded oracle observe): `reverse=True` is still deterministic but is "
+               "reported as a violation of the stated order, deliberately - a changed order is an observable change of the output.  Which texts "
+               "are members is C16's business (same contract).  Everything else of C14 stays with the bounded stand-in: bytes of JSON / CSV / PDB / "
+               "mmCIF outputs, fresh processes, hash seeds, CBC tie-breaking, the other entry points - the property quantifies over interpreter "
+               "states, which the VC generator does not model: tools/c14_worker.py computes every named output in fresh interpreters; "
+               "oracles/determinism_o.py compares their sha256 across seeds and across two in-process calls")
 
 MAX_PER_KIND = 2
 
